@@ -1382,14 +1382,17 @@ impl BookedVersions {
         seqs: Option<&RangeInclusive<CrsqlSeq>>,
     ) -> bool {
         self.contains_version(&version)
-            && seqs
-                .map(|check_seqs| match self.partials.get(&version) {
-                    Some(partial) => check_seqs.clone().all(|seq| partial.seqs.contains(&seq)),
-                    // if `contains_version` is true but we don't have a partial version,
-                    // then we must have it as a fully applied or cleared version
-                    None => true,
-                })
-                .unwrap_or(true)
+            && match (seqs, self.partials.get(&version)) {
+                (Some(check_seqs), Some(partial)) => {
+                    check_seqs.clone().all(|seq| partial.seqs.contains(&seq))
+                }
+                // asked about the whole version (e.g. an empty changeset):
+                // a version we only hold partially is not contained
+                (None, Some(partial)) => partial.is_complete(),
+                // if `contains_version` is true but we don't have a partial version,
+                // then we must have it as a fully applied or cleared version
+                (_, None) => true,
+            }
     }
 
     pub fn contains_all(
